@@ -1289,7 +1289,7 @@ class LoadFunc(_CallOrLoad, DataflowOp):
             is provided.
     """
 
-    num_out: int = field(default=1, repr=False)
+    num_out: int = 1
 
     def _to_serial(self, parent: Node) -> sops.LoadFunction:
         return sops.LoadFunction(
